@@ -4,6 +4,8 @@
 // or without the build tag this file contributes no executable code.
 package fix
 
+//@ global[C01,C02,C03,C11,C17,C18] Delimiter = bytes(SOH)
+
 //@ spec anchored(d string, i int, t string) bool = (i == 0 || code(d, i-1) == 1) && sub(d, i, i+len(t)+1) == cat(t, "=")
 //@ spec valueAt(d string, j int) string = ite(idxfrom(d, SOH, j) < 0, from(d, j), sub(d, j, idxfrom(d, SOH, j)))
 
@@ -12,3 +14,35 @@ package fix
 //@   witness k = ite(idx(string(msg), cat(SOH, tag, "=")) >= 0, idx(string(msg), cat(SOH, tag, "=")) + 1, 0)
 //@   ensures[C18] @anchored imp(err == nil, anchored(string(msg), k, tag))
 //@   ensures[C18,C16] @value imp(err == nil, string(res) == valueAt(string(msg), k + len(tag) + 1))
+
+// ---- template well-formedness (precondition of the decoder, C11) -------------
+// wfItem/wfSeq are properties of the immutable template structure (which
+// Value object a KeyValue holds, which items a Component or Group template
+// lists). The decoder never writes those fields of pre-existing objects (frame
+// obligations of unmarshal/scanKeyValue), so the predicates are heap-independent.
+//@ spec wfItem(x ref) bool
+//@   unfold wf_item(x Item): imp(wfItem(x), x != nil && imp(istype(x, *KeyValue), x.(*KeyValue).Value != nil) && imp(istype(x, *Group), wfSeq(x.(*Group).template)) && imp(istype(x, *Component), wfSeq(x.(*Component).items)))
+//@   unfold wf_kv_intro(x Item): imp(istype(x, *KeyValue) && x.(*KeyValue).Value != nil, wfItem(x))
+//@ spec wfSeq(s ref) bool
+//@   unfold wf_seq_at(s []Item, i int): requires 0 <= i && i < len(s) ensures imp(wfSeq(s), wfItem(s[i]))
+
+//@ interface Value
+//@   method FromBytes(d []byte) (err error):
+//@     modifies self.*
+//@   method Value() (res interface{}):
+//@     pure
+//@     ensures[C11] imp(istype(self, *Int), istype(res, int))
+//@   method IsNull() (res bool):
+//@     pure
+//@   method ToBytes() (res []byte):
+//@     pure
+
+//@ func (g *Group) AsTemplate() (res Items)
+//@   trusted
+//@   requires g != nil
+//@   ensures fresh(res) && imp(wfSeq(g.template), wfSeq(res))
+
+//@ func (g *Group) AddEntry(v Items) (res *Group)
+//@   requires g != nil
+//@   modifies g.items
+//@   ensures res == g
